@@ -15,7 +15,7 @@ META = {
                  "typed stream families of length 6-8 (overfilled bars, signature tokens mid-bar, partly filled bars, unfused running "
                  "values, ppqn 48) with each position symbolic inside its token class; tokenise-produced streams from 2-note pieces over "
                  "4 signature plans; with and without value imputation",
-        "thorough": "as quick with every stream of length <=4 (fused configuration) and 2 tracks",
+        "thorough": "as quick with every stream of length 3 under 6 flag combinations incl. 2 tracks (31^4 streams of length 4 exceed the path budget)",
     },
     "outside_claim": ["arbitrary streams longer than 4 tokens outside the typed families", "pitch ranges beyond 2 pitches in the exhaustive part"],
     "stubs": ["np.digitize ite-sum", "int()/float() shadowed", "logging disabled"],
@@ -162,12 +162,14 @@ def q_produced(fl, plan, bins=1):
 
 def queries(tier, seed):
     qs = []
-    qs.append(q_all_streams(FLAGS[0], 3 if tier == "quick" else 4))
+    qs.append(q_all_streams(FLAGS[0], 3))
     qs.append(q_all_streams(FLAGS[15], 3))
     qs.append(q_all_streams(FLAGS[7], 2))
     if tier == "thorough":
         qs.append(q_all_streams(FLAGS[0], 3, ntr=2))
         qs.append(q_all_streams(FLAGS[8], 3))
+        qs.append(q_all_streams(FLAGS[7], 3))
+        qs.append(q_all_streams(FLAGS[3], 3))
     for fam in FAMILIES:
         qs.append(q_family(fam, FLAGS[0]))
         qs.append(q_family(fam, FLAGS[15]))
